@@ -65,7 +65,17 @@ fn mysql_update_join(toks: Vec<Tok>) -> Result<(Vec<Tok>, Option<Vec<usize>>), S
 
 /// token-by-token transliteration of `sql` (dialect `b`) to SQLite spelling
 pub fn translit(b: B, sql: &str) -> Result<(String, Option<Vec<usize>>), String> {
-    let toks = reflex::lex(b, sql)?;
+    let (mut toks, spans) = reflex::lex_impl(b, sql)?;
+    // Postgres spells a byte string as the plain literal '\x<hex>' (a text value with a backslash is always written E'..'): decode it
+    if b == B::Postgres {
+        let cs: Vec<char> = sql.chars().collect();
+        for (k, t) in toks.iter_mut().enumerate() {
+            let plain = spans.get(k).map(|(a, _)| cs.get(*a) == Some(&'\'')).unwrap_or(false);
+            if let Tok::Str(x) = t { if plain { if let Some(h) = x.strip_prefix("\\x") { if h.len() % 2 == 0 && h.chars().all(|c| c.is_ascii_hexdigit()) {
+                *t = Tok::Bytes((0..h.len() / 2).map(|j| u8::from_str_radix(&h[2 * j..2 * j + 2], 16).unwrap()).collect());
+            } } } }
+        }
+    }
     let (toks, perm) = if b == B::Mysql { mysql_update_join(toks)? } else { (toks, None) };
     // set-operation operands are parenthesised on MySQL / Postgres and must not be on SQLite
     let mut drop = vec![false; toks.len()];
@@ -83,6 +93,25 @@ pub fn translit(b: B, sql: &str) -> Result<(String, Option<Vec<usize>>), String>
             }
         }
         i += 1;
+    }
+    // a MySQL table value constructor spells its rows ROW(..): `( VALUES ROW ( .. ) , ROW ( .. ) )`; SQLite writes them bare
+    if b == B::Mysql {
+        let lp = Tok::Punct("(".into()); let rp = Tok::Punct(")".into()); let comma = Tok::Punct(",".into());
+        let mut i = 0;
+        while i + 1 < toks.len() {
+            if toks[i] == lp && is_word(&toks[i + 1], "VALUES") {
+                let mut j = i + 2;
+                loop {
+                    if j >= toks.len() || !is_word(&toks[j], "ROW") || toks.get(j + 1) != Some(&lp) { return Err("a row of a MySQL table value constructor is not written ROW(..)".into()); }
+                    drop[j] = true;
+                    let mut depth = 0i32; let mut k = j + 1;
+                    while k < toks.len() { if toks[k] == lp { depth += 1; } if toks[k] == rp { depth -= 1; if depth == 0 { break; } } k += 1; }
+                    if k >= toks.len() { return Err("unbalanced row of a table value constructor".into()); }
+                    if toks.get(k + 1) == Some(&comma) { j = k + 2; } else { break; }
+                }
+            }
+            i += 1;
+        }
     }
     let mut out: Vec<String> = Vec::new();
     for (i, t) in toks.iter().enumerate() {
@@ -128,8 +157,19 @@ pub fn run(ctx: &mut Ctx) {
     while made < n {
         let depth = match rng.below(10) { 0..=2 => 1, 3..=7 => 2, _ => 3 };
         let mut g = Gen7::portable(rng.fork());
-        let Some(q) = portable(g.statement(depth)) else { continue };
+        let Some(mut q) = portable(g.statement(depth)) else { continue };
         made += 1;
+        // a VALUES list as a table is common to the three engines (only its column names are not): every 20th statement reads
+        // one through `*` / COUNT(*), with rows of one, two or three values
+        if made % 20 == 0 {
+            let w = 1 + rng.below(3) as usize; let nrows = 1 + rng.below(3) as usize;
+            let tys: Vec<char> = (0..w).map(|_| *rng.pick(&['i', 't', 'r'])).collect();
+            let rows: Vec<Vec<crate::stmt::Val>> = (0..nrows).map(|_| tys.iter().map(|t| g.value7(*t)).collect()).collect();
+            let mut s = Select::default();
+            s.selects.push(SelItem { e: if rng.chance(1, 2) { Ex::Col(ColRef::Star) } else { Ex::Func(Fun::Std(6), false, vec![Ex::Col(ColRef::Star)]) }, win: WinSel::None, alias: None });
+            s.from.push(TRef::Vals(rows, "v1".into()));
+            q = Query::Sel(s);
+        }
         let recipe = q.sexp();
         let Some(real) = catch(|| q.real()) else { ctx.count("build.panic"); continue };
         let mut forms = vec![serde_json::json!({"name": "explicit", "sql": xq(&q), "values": []})];
@@ -144,7 +184,7 @@ pub fn run(ctx: &mut Ctx) {
                 let sql = if b == B::Sqlite { Ok((text.clone(), None)) } else { translit(b, text) };
                 match sql {
                     Ok((sql, perm)) => { let vals = match &perm { Some(p) if p.len() == vals.len() => p.iter().map(|i| vals[*i].clone()).collect(), _ => vals }; forms.push(serde_json::json!({"name": format!("{}.{mode}", b.name()), "sql": sql, "values": vals, "original": text})) }
-                    Err(e) => { ctx.oracle_fail(if e.starts_with("the assigned column") { "MySQL's UPDATE .. JOIN form of a portable UPDATE .. FROM names a table that is not in scope" } else { "a rendering of a portable statement does not lex under its engine's lexical rules" }, serde_json::json!({"backend": b.name(), "mode": mode, "sql": text, "error": e, "recipe": recipe})); ok = false; }
+                    Err(e) => { ctx.oracle_fail(if e.starts_with("the assigned column") { "MySQL's UPDATE .. JOIN form of a portable UPDATE .. FROM names a table that is not in scope" } else { if e.starts_with("a row of a MySQL") { "MySQL requires the rows of a VALUES list used as a table to be written ROW(..)" } else { "a rendering of a portable statement does not lex under its engine's lexical rules" } }, serde_json::json!({"backend": b.name(), "mode": mode, "sql": text, "error": e, "recipe": recipe})); ok = false; }
                 }
             }
         }
